@@ -637,8 +637,8 @@ fn encode_body(w: &mut W, b: &Body) {
             w.u16("layer_flags", Role::Flags, l.flags);
             w.u16("layer_type", Role::Enum, l.ty);
             w.u16("layer_level", Role::Index, l.level);
-            w.u16("layer_default_w", Role::Reserved, l.default_w);
-            w.u16("layer_default_h", Role::Reserved, l.default_h);
+            w.u16("layer_default_w", Role::Size, l.default_w);
+            w.u16("layer_default_h", Role::Size, l.default_h);
             w.u16("layer_blend", Role::Enum, l.blend);
             w.u8("layer_opacity", Role::Value, l.opacity);
             w.reserved("layer_reserved", &l.reserved);
@@ -727,8 +727,8 @@ fn encode_body(w: &mut W, b: &Body) {
         Body::Mask(m) => {
             w.i16("mask_x", Role::Value, m.x);
             w.i16("mask_y", Role::Value, m.y);
-            w.u16("mask_w", Role::Value, m.w);
-            w.u16("mask_h", Role::Value, m.h);
+            w.u16("mask_w", Role::Size, m.w);
+            w.u16("mask_h", Role::Size, m.h);
             w.reserved("mask_reserved", &m.reserved);
             w.string("mask_name", &m.name);
             w.bytes(&m.bitmap);
@@ -750,7 +750,7 @@ fn encode_body(w: &mut W, b: &Body) {
         }
         Body::Palette(p) => {
             let last = p.last.unwrap_or((p.first as u64 + p.entries.len() as u64).saturating_sub(1) as u32);
-            w.u32("pal_size", Role::Reserved, p.size.unwrap_or(last.wrapping_add(1)));
+            w.u32("pal_size", Role::Count, p.size.unwrap_or(last.wrapping_add(1)));
             w.u32("pal_first", Role::Index, p.first);
             w.u32("pal_last", Role::Index, last);
             w.reserved("pal_reserved", &p.reserved);
